@@ -127,6 +127,11 @@ def gen(rng: random.Random, tier: str) -> dict:
         if r < 0.45:
             m = rng.choice(["render", "render", "parse", "renderInline", "parseInline"])
             d = docgen.inline_source(rng) if "Inline" in m else _gen_doc(rng)
+            prev = [op for op in ops if op[0] == "call"]
+            if prev and rng.random() < 0.2:
+                m, d = prev[-1][2], prev[-1][3]
+                if rng.random() < 0.5:
+                    d = d + "\n\n[foo]: /hist-foo\n[bar]: /hist-bar\n[A B]: /hist-ab\n"
             em = rng.choice(["omit", "fresh", "fresh"] + ([["shared", rng.randrange(n_env)]] * 2 if n_env else []))
             ops.append(["call", j, m, d, em])
         elif r < 0.55:
@@ -161,10 +166,24 @@ def gen(rng: random.Random, tier: str) -> dict:
             ops.append(["bad", j, rng.choice(["src_int", "src_none", "env_list", "env_str", "preset", "rule", "empty_cfg",
                                               "inline_src_bytes"])])
     probes = []
+    seen_docs = [op for op in ops if op[0] == "call"]
     for _ in range(rng.randint(1, 4)):
         m = rng.choice(["render", "render", "parse", "renderInline"])
         d = docgen.inline_source(rng) if "Inline" in m else (_gen_doc(rng) + rng.choice(["", "x @ y\n\n@@\n"]))
-        probes.append([rng.randrange(n_inst), m, d, rng.choice(["omit", "fresh"])])
+        j = rng.randrange(n_inst)
+        if seen_docs and rng.random() < 0.4:
+            # the same text again (memo-style state is keyed by text/position), with its definitions dropped, kept or
+            # changed: what resolved in the history must not resolve (or not the same way) in the probe
+            src_op = rng.choice(seen_docs)
+            m = src_op[2] if rng.random() < 0.7 else m
+            d = src_op[3]
+            j = src_op[1] if rng.random() < 0.7 else j
+            k = rng.random()
+            if k < 0.35:
+                d = "\n".join(ln for ln in d.split("\n") if not ln.lstrip(" >").startswith("[") or "]:" not in ln)
+            elif k < 0.55:
+                d = d + "\n\n[foo]: /other-foo\n[x]: /other-x\n[ref]: /other-ref 'T'\n"
+        probes.append([j, m, d, rng.choice(["omit", "fresh"])])
     return {"user_presets": user_presets, "user_options": user_options, "n_env": n_env, "ops": ops, "probes": probes,
             "env_type": rng.choice(["dict", "dict", "userdict"])}
 
